@@ -6,6 +6,8 @@
    order, the same orders and faces, and a well-formed complex. *)
 From Coq Require Import String ZArith Bool Arith List.
 From SV Require Import Names NamesFacts Rep Complex Homology Filtration Gen World Small Sweeps Shapes JsonProofs.
+From SV Require Import VInv JsonOk.
+
 
 Theorem C17_roundtrip_upto4_partial : forall c, In c complexes4 ->
   chk_json (build_named 1 c) && chk_json (build c) = true.
@@ -31,3 +33,11 @@ Theorem C17_roundtrip :
        heap_get hp' h' = heap_get hp0 (match assoc s (r_attr src) with Some h => h | None => (0, 0) end)).
 Proof. exact json_roundtrip. Qed.
 Print Assumptions C17_roundtrip.
+
+(* the decoder accepts the encoding of every complex that meets the vertex-set reading (at the level of
+   the encoded records: it replays the adds of copy(), which never fail) *)
+Theorem C17_decoder_accepts_every_encoding :
+  forall src hp0 hp uid, vinv src ->
+  exists hp' r', decode hp (empty_rep uid) (encode_view hp0 (view_of src)) = (hp', r', Ok tt).
+Proof. exact json_decode_succeeds. Qed.
+Print Assumptions C17_decoder_accepts_every_encoding.
